@@ -49,6 +49,13 @@ def run_mutant(mu, repo, pid):
                 if any(mrule == r or mrule.startswith(r) for r in rules):
                     fired.append(type('A', (), {'rule': mrule, 'key': 'ANCHOR-MISSING/%s/%s' % (mrule, what),
                                                 'loc': '', 'why': note})())
+        if 'CF' in mu['rules']:
+            import witness
+            wr = witness.run(tmp)
+            for w, okw in wr['results'].items():
+                if not okw and pid in witness.SERVES.get(w, []):
+                    fired.append(type('A', (), {'rule': 'CF', 'key': 'CF/witness/' + w, 'loc': 'witness/src/lib.rs',
+                                                'why': 'witness %s fails' % w})())
         want = mu['rules']
         hit = [i for i in fired if any(i.rule == w or i.rule.startswith(w) for w in want)]
         if hit:
